@@ -809,6 +809,12 @@ class GUITemplate(JMCFunction):
                 self.tokenizer,
             )
         mode = self.MODE_MAP[mode_str]
+        if not template:
+            raise JMCValueError(
+                f"Expected at least one row in the template of {self.call_string}",
+                self.raw_args["template"].token,
+                self.tokenizer,
+            )
         self.datapack.data.guis[name] = GUI(name, mode, template)
         if self.is_never_used():
             self.datapack.add_load_command(
